@@ -1,4 +1,5 @@
 import TplModel.Exp.Parse
+import TplModel.Exp.F64Cmp
 namespace EV
 open EL (E)
 
@@ -479,8 +480,8 @@ def ifaceEq (fns : List (String × FnSpec)) (a b : Val) : Option Bool :=
   | .nil, _ | _, .nil => some false
   | .bool x, .bool y => if tyOf fns a ≠ tyOf fns b then some false else some (x == y)
   | .int _ x, .int _ y => if tyOf fns a ≠ tyOf fns b then some false else some (x == y)
-  | .f64 x, .f64 y => if tyOf fns a ≠ tyOf fns b then some false else some (x == y)
-  | .f32 x, .f32 y => if tyOf fns a ≠ tyOf fns b then some false else some (x == y)
+  | .f64 x, .f64 y => if tyOf fns a ≠ tyOf fns b then some false else some (F64.eq x.toBits y.toBits)
+  | .f32 x, .f32 y => if tyOf fns a ≠ tyOf fns b then some false else some (F64.eq x.toBits y.toBits)
   | .str x, .str y => if tyOf fns a ≠ tyOf fns b then some false else some (x == y)
   | .ptr _ i _, .ptr _ j _ => if tyOf fns a ≠ tyOf fns b then some false else some (i == j)
   | .array _ xs, .array _ ys => if tyOf fns a ≠ tyOf fns b then some false else ifaceEqs fns xs ys
@@ -494,7 +495,10 @@ def ifaceEqs (fns : List (String × FnSpec)) : List Val → List Val → Option 
   | _, _ => some true
 end
 
-/-- numEqual (exp/visitor.go): numbers are compared by value, whatever Go type carries them -/
+/-- numEqual (exp/visitor.go): numbers are compared by value, whatever Go type carries them.  Float comparisons
+    (here, in `relOp` and in `ifaceEq`) are computed on the IEEE-754 bit patterns (`F64.eq`, `F64.rel`:
+    `TplModel/Exp/F64Cmp.lean`), which gives exactly the results of the hardware `==`, `<`, … on float64 but is
+    transparent to the kernel; `Float.ofInt` (Go's `float64(i)`) stays opaque. -/
 def numEq (l r : Val) : Option Bool :=
   match isInt l, isInt r with
   | some a, some b => some (a == b)
@@ -502,7 +506,7 @@ def numEq (l r : Val) : Option Bool :=
     let fa := match isInt l with | some a => some (Float.ofInt a) | none => isFloat l
     let fb := match isInt r with | some b => some (Float.ofInt b) | none => isFloat r
     match fa, fb with
-    | some a, some b => some (a == b)
+    | some a, some b => some (F64.eq a.toBits b.toBits)
     | _, _ => none
 
 def relOp (fns : List (String × FnSpec)) (op : String) (l r : Val) : M Val := do
@@ -525,7 +529,7 @@ def relOp (fns : List (String × FnSpec)) (op : String) (l r : Val) : M Val := d
       let fb := match isInt r with | some b => some (Float.ofInt b) | none => isFloat r
       match fa, fb with
       | some a, some b =>
-        return .bool (match op with | "<" => a < b | "<=" => a ≤ b | ">" => a > b | _ => a ≥ b)
+        return .bool (F64.rel op a.toBits b.toBits)
       | _, _ =>
         match l, r with
         | .str a, .str b => return .bool (cmp a b)
